@@ -1066,6 +1066,7 @@ package plenccodec
 //@ func plenccodec.BuildStructCodec
 //@   safety C08
 //@   assigns H
+//@   ensures[C08] r1 == nil ==> r0.typ == tid("*plenccodec.StructCodec")
 //@   loop 1 invariant[C08] 0 <= count && count <= rangeindex + 1 && rangeindex + 1 <= rangelen && 0 <= maxIndex && rangelen == len(c.fields)
 //@   # every field recorded so far has an index between 0 and the maximum seen: the index table built below covers it
 //@   loop 1 invariant[C08] forall k int :: 0 <= k && k < count ==> 0 <= c.fields[k].index && c.fields[k].index <= maxIndex
@@ -1080,3 +1081,13 @@ package plenccodec
 //@   loop 2 decreases rangelen - rangeindex
 //@   ensures[C08] r1 == nil ==> r0 != nil
 //@   ensures[C08] r1 != nil ==> r0 == nil
+
+//@ # ---- building a map codec (C08) -------------------------------------------------------
+//@ func plenccodec.BuildMapCodec
+//@   safety C08
+//@   assigns H
+//@   ensures[C08] r1 == nil ==> r0 != nil
+//@   ensures[C08] r1 != nil ==> r0 == nil
+//@   ensures[C08] r1 == nil ==> mapconv(r0)
+//@   # keys and values are handed to their codecs as pointers into the map's slots: neither codec may expect a map itself
+//@   ensures[C08] r1 == nil ==> called_CodecBuilder_CodecForTypeRegistry && !mapconv(call_CodecBuilder_CodecForTypeRegistry_r0)
